@@ -202,7 +202,12 @@ def run(repo: Repo) -> Result:
             res.add("C24-ORDER", f.qual, "most-recent-first", f"LRUCache.{m} must return {want} (most to least recently used)", f.file, f.line)
     init = base.methods["__init__"]
     res.ob("order:capacity")
-    if "capacity < 1" not in text(init.node) or not any(isinstance(n, ast.Raise) for n in ast.walk(init.node)):
+    from ..guards import canon as _canon
+
+    cap = [p_ for p_ in init.params() if p_ != "self"][0] if len(init.params()) > 1 else "capacity"
+    too_small = {_canon(ast.parse(f"{cap} < 1", mode="eval").body), _canon(ast.parse(f"{cap} <= 0", mode="eval").body), _canon(ast.parse(f"not {cap} >= 1", mode="eval").body)}
+    rejects = any(isinstance(n, ast.If) and _canon(n.test) in too_small and n.body and isinstance(n.body[-1], ast.Raise) for n in ast.walk(init.node))
+    if not rejects:
         res.add("C24-ORDER", init.qual, "capacity>=1", "LRUCache must reject a capacity below 1", init.file, init.line)
     dl = base.methods["__delitem__"]
     res.ob("order:delitem")
